@@ -2,6 +2,7 @@ import Driver.C20
 import Driver.LibMem
 import Driver.C17
 import Driver.C18
+import Driver.C19
 
 def main (args : List String) : IO UInt32 :=
   match args with
@@ -9,4 +10,5 @@ def main (args : List String) : IO UInt32 :=
   | ["libmem"] => Driver.LibMem.main
   | ["c17"] => Driver.C17.main
   | ["c18"] => Driver.C18.main
+  | ["c19"] => Driver.C19.main
   | _ => do IO.eprintln "usage: nridrv <property>"; return 2
